@@ -394,8 +394,47 @@ func runCachePlan(t *testing.T, planAny any, ctl Ctl) *Result {
 			}
 			return !s.AnyGoParked()
 		}
-		end := s.Run(actorsDone)
-		if end == "" && !w.destr {
+		crashed := false
+		if p.CrashStep > 0 {
+			end := s.Run(func() bool { return actorsDone() || s.Steps >= p.CrashStep })
+			if end == "" && !actorsDone() && !w.destr && p.Backend == "file" {
+				// the process dies here: every task stops where it is (deferred unlocks run, nothing
+				// else), in-memory state is gone, only the directory survives; then a new process
+				// opens the same directory
+				crashed = true
+				res.fault("crash_restart")
+				s.KillAll(nil)
+				cancel()
+				synctest.Wait()
+				cache.VerifDrainIntervalChan(w.c)
+				before, _ := os.ReadDir(filepath.Join(dir, "cache"))
+				if len(before) > 0 {
+					res.probe("crash_left_files_behind")
+				}
+				metrics.Global = metrics.NewMetrics()
+				ctx2, cancel2 := context.WithCancel(context.Background())
+				defer cancel2()
+				s.Exempt()
+				w.c = cache.NewFileCache[CMeta](cfg, filepath.Join(dir, "cache"), p.MaxSize, interval, p.Shards, ctx2)
+				s.Unexempt()
+				w.hist = nil
+				s.Spawn("check:restart", func() { snaps = append(snaps, w.snapshot()) })
+				end = s.Run(func() bool { return s.TaskDone("check:restart") })
+				if end == "" && len(snaps) == 1 {
+					sn := snaps[0]
+					if sn.Reported != 0 || sn.Entries != 0 || sn.Internal != 0 || sn.ActualN != 0 || len(sn.DirFiles) != 0 {
+						res.violate("C12.c", "file dirty-after-restart", "after abandoning the cache at step %d and reopening its directory: reported bytes %d, entries %d, internal size %d, retrievable entries %d, files in the directory %d (all must be 0) [%s]", p.CrashStep, sn.Reported, sn.Entries, sn.Internal, sn.ActualN, len(sn.DirFiles), opSig(p))
+					}
+				}
+				snaps = nil
+				finishSched(res, s, end)
+			}
+		}
+		end := ""
+		if !crashed {
+			end = s.Run(actorsDone)
+		}
+		if !crashed && end == "" && !w.destr {
 			s.SetAdvanceP(0)
 			s.Spawn("check:0", func() { snaps = append(snaps, w.snapshot()) })
 			end = s.Run(func() bool { return s.TaskDone("check:0") })
@@ -410,7 +449,9 @@ func runCachePlan(t *testing.T, planAny any, ctl Ctl) *Result {
 				}
 			}
 		}
-		finishSched(res, s, end)
+		if !crashed {
+			finishSched(res, s, end)
+		}
 		if end == "stuck" {
 			res.violate("C14.a", "stuck", "no task can make progress: %s", s.Stuck)
 		}
@@ -947,6 +988,9 @@ func genCachePlan(r *rand.Rand, family string) *CachePlan {
 			}
 		}
 	}
+	if family == "cnt" && p.Backend == "file" && r.IntN(4) == 0 {
+		p.CrashStep = 5 + r.IntN(150)
+	}
 	if family == "stress" && r.IntN(4) == 0 {
 		a := r.IntN(len(p.Actors))
 		p.Actors[a] = append(p.Actors[a], COp{Kind: "destroy"})
@@ -985,6 +1029,56 @@ func genExpWinPlan(r *rand.Rand) *CachePlan {
 		p.Actors = append(p.Actors, ops)
 	}
 	p.SettleTick = true
+	return p
+}
+
+// cacheEnumOps: the operation alphabet of the bounded-exhaustive sequential family (C12).
+var cacheEnumOps = []COp{
+	{Kind: "put", Key: 0, Size: 10, TTLMs: 360000000},
+	{Kind: "put", Key: 0, Size: 3000, TTLMs: 360000000},
+	{Kind: "put", Key: 1, Size: 700, TTLMs: 360000000},
+	{Kind: "put", Key: 0, Size: 500, TTLMs: 360000000, FailAt: 200},
+	{Kind: "put", Key: 0, Size: 500, TTLMs: 360000000, Empty: true},
+	{Kind: "del", Key: 0},
+	{Kind: "get", Key: 0},
+	{Kind: "upd", Key: 0, TTLMs: 1},
+	{Kind: "put", Key: 1, Size: 400, TTLMs: 5}, // expires before the next tick
+	{Kind: "wait", WaitMs: 60},                  // lets a janitor cycle run
+}
+
+// genCacheEnumPlan enumerates every operation sequence up to the tier's depth, by run index.
+func genCacheEnumPlan(tier string) *CachePlan {
+	idx := int(currentSeed&0xffffffff) / 2 // the scenario rotation uses the lowest bit
+	depth := 3
+	if tier == "thorough" {
+		depth = 5
+	}
+	n := len(cacheEnumOps)
+	total := 0
+	pw := 1
+	for d := 1; d <= depth; d++ {
+		pw *= n
+		total += pw
+	}
+	p := &CachePlan{Family: "cnt", Backend: []string{"memory", "file"}[idx%2], Shards: 2, NKeys: 2, KeySalt: 7, MaxSize: 1 << 40, IntervalMs: 50, SettleTick: true}
+	p.Pol = zzsim.Policy{Kind: "sticky", SwitchP: 0.1, Mute: "R6,R7", MaxSteps: 6000}
+	k := (idx / 2) % total
+	d, cnt := 1, n
+	for k >= cnt {
+		k -= cnt
+		cnt *= n
+		d++
+	}
+	var ops []COp
+	for i := 0; i < d; i++ {
+		op := cacheEnumOps[k%n]
+		k /= n
+		if op.Kind == "put" {
+			op.Ver = i + 1
+		}
+		ops = append(ops, op)
+	}
+	p.Actors = [][]COp{ops}
 	return p
 }
 
@@ -1053,6 +1147,7 @@ func shrinkCachePlan(planAny any) []any {
 }
 
 func init() {
+	register(&Scenario{Name: "cache-enum", Gen: func(r *rand.Rand, tier string) any { return genCacheEnumPlan(tier) }, Decode: decodeInto[CachePlan], Run: runCachePlan, Shrink: shrinkCachePlan})
 	register(&Scenario{Name: "cache-expwin", Gen: func(r *rand.Rand, tier string) any { return genExpWinPlan(r) }, Decode: decodeInto[CachePlan], Run: runCachePlan, Shrink: shrinkCachePlan})
 	for _, fam := range []string{"lin", "linfault", "cnt", "cntdisk", "stress"} {
 		fam := fam
